@@ -1,9 +1,10 @@
-"""Single source for MANIFEST.json (tools/gen_manifest.py writes it from here)."""
+"""Collects MANIFEST data from tools/checks/cXX.py (each defines LEVEL, MANIFEST, HARNESS)."""
+import importlib
+import os
+import sys
 
-# harness name -> repo libraries it links
-HARNESSES = {
-    "xorwow": ["corecel", "celeritas"],
-}
+HERE = os.path.dirname(os.path.abspath(__file__))
+sys.path.insert(0, HERE)
 
 LEVEL_NOTE_COMMON = (
     "Trusted: Lean 4.33 kernel; axioms propext/Classical.choice/Quot.sound only (audited by "
@@ -11,25 +12,14 @@ LEVEL_NOTE_COMMON = (
     "harness + generators + diff that tie the hand-written model to the code; g++/libstdc++/libm."
 )
 
-CHECKS = {
-    "C13": {
-        "category": "proof",
-        "technique": "Lean 4 proof: GF(2)[z]/(P) certificates by kernel evaluation over regenerated "
-                     "jump tables + induction; differential correspondence model vs real engine",
-        "text": "Theorems over the model for all 2^160 states, all Weyl values and all n<2^64: "
-                "discard n = n draws; discard_subsequence k = k*2^67 steps; exact period 2^160-1 "
-                "(Cayley-Hamilton + order certificates + Lucas primality of the factors); streams "
-                "of different (event,slot) disjoint; canonical numerator < 2^53. Jump tables and "
-                "all constants are regenerated from the source each run so a changed table breaks "
-                "a kernel-checked certificate; the engine's control flow is hand-modelled and "
-                "compared with the real XorwowRngEngine/XorwowRngParams/reseed_rng on random and "
-                "adversarial op scripts; impl-side oracle discard(a+b)=discard(a);discard(b) etc. "
-                "searches a failing input when anything breaks.",
-        "design_ref": "DESIGN.md §6 C13",
-        "note": "Hypotheses: n,k < 2^64 (ull_int); streams_disjoint assumes non-zero seed state and "
-                "event*size+slot < 2^64 (beyond that reseed_rng wraps). IEEE exactness of n*2^-53 "
-                "for n<2^53 is assumed, checked at run time by the harness. " ,
-    },
-}
+CHECKS, HARNESSES = {}, {}
+for _i in range(1, 21):
+    _pid = "C%02d" % _i
+    if os.path.exists(os.path.join(HERE, "checks", _pid.lower() + ".py")):
+        _m = importlib.import_module("checks." + _pid.lower())
+        if getattr(_m, "MANIFEST", None):
+            CHECKS[_pid] = _m.MANIFEST
+            HARNESSES.update(getattr(_m, "HARNESS", {}))
 
+# properties deliberately not claimed, with the reason (see DESIGN.md §7)
 NOT_APPLICABLE = {}
